@@ -1,4 +1,6 @@
 import SlotVerif.Proofs.Term
+import SlotVerif.Proofs.SnapEquiv
+import SlotVerif.Proofs.LookupEquiv
 /-!
 # C11 — Slot names do not matter: behaviour is equivariant under renaming
 
@@ -6,6 +8,12 @@ On the specification, renaming all names by an invertible map is an automorphism
 redundancy and symmetry are preserved in both directions, so every observable defined on the spec
 is invariant.  The implementation is compared run-by-run under renamings that reverse the
 internal slot order (numeric ↔ named, reversed numeric order, `f<n>` names above the fresh counter).
+On the modelled read-only functions of the implementation (`Model/Snapshot.lean`, tied to the code by the
+correspondence check): `find_equivariant` — canonicalisation commutes with *any* renaming of an invocation's
+arguments ("returned invocations are the originals renamed"), and `eq_equivariant` — the answer of an equality
+query does not change when the arguments of both invocations are renamed by a map injective on them
+(`Proofs/SnapEquiv.lean`); `lookup_equivariant` — looking up an e-node whose slot occurrences were all renamed
+injectively returns the renamed invocation (`Proofs/LookupEquiv.lean`).
 -/
 namespace SV.C11
 open SV SV.Term
@@ -34,5 +42,33 @@ theorem cong_rename_iff {E : List (Term × Term)} (σ σ' : Nat → Nat) (hσ : 
       intro e _
       simp [renEq, mapFree_cancel σ σ' hσ h1]
     rwa [hE] at this
+
+/-- **returned invocations are the originals renamed**: `find_applied_id` commutes with renaming the arguments -/
+theorem find_equivariant {s : Snap} (hok : Snap.ufOK s = true) (ρ : Nat → Nat) (a : AppId) :
+    Snap.find s (Snap.renApp ρ a) = (Snap.find s a).map (Snap.renApp ρ) :=
+  Snap.find_renApp (Snap.ufOK_sound hok).1 ρ a
+
+/-- **every equality query has the same answer after renaming**, for a renaming injective on the arguments that
+survive canonicalisation -/
+theorem eq_equivariant {s : Snap} (hok : Snap.ufOK s = true) {ρ : Nat → Nat} {a b a' b' : AppId}
+    (ha : Snap.find s a = some a') (hb : Snap.find s b = some b') (hiB : SlotMap.Inj b'.m)
+    (hρ : ∀ x ∈ SlotMap.valuesVec a'.m ++ SlotMap.valuesVec b'.m,
+      ∀ y ∈ SlotMap.valuesVec a'.m ++ SlotMap.valuesVec b'.m, ρ x = ρ y → x = y) :
+    Snap.eq s (Snap.renApp ρ a) (Snap.renApp ρ b) = Snap.eq s a b :=
+  Snap.eq_renApp hok ha hb hiB hρ
+
+/-- **`lookup` commutes with an injective renaming of the queried node's slots** -/
+theorem lookup_equivariant {s : Snap} (hok : Snap.ufOK s = true) {ρ : Nat → Nat} (hρ : ∀ x y, ρ x = ρ y → x = y)
+    (n : Node) : Snap.lookup s (Node.rename ρ n) = (Snap.lookup s n).map (Snap.renApp ρ) :=
+  Snap.lookup_rename (Snap.ufOK_sound hok).1 hρ n
+
+/-- non-vacuity: on a two-class state, the permuted invocation and its renaming -/
+def demo : Snap :=
+  { uf := [⟨1, [(9, 5)]⟩, ⟨1, [(9, 9)]⟩],
+    classes := [
+      { id := 1, slots := [9], nodes := [], gens := [], syn := ⟨0, [.slot 0]⟩, data := "-" }] }
+example : Snap.ufOK demo = true ∧ Snap.find demo ⟨0, [(5, 40), (13, 44)]⟩ = some ⟨1, [(9, 40)]⟩ ∧
+    Snap.eq demo (Snap.renApp (· + 100) ⟨0, [(5, 40), (13, 44)]⟩) (Snap.renApp (· + 100) ⟨1, [(9, 40)]⟩) = some true := by
+  decide
 
 end SV.C11
